@@ -32,10 +32,10 @@ def run(ctx):
         if ctx.fuc(m, q) is None:
             continue
         R = O.summary(m, q)
-        bad = sorted(R & {"INT", "INTC", "CACHE", "CACHEC"})   # the caller's own arguments may be handed back
+        bad = sorted(R & {"INT", "INTC", "CACHE", "CACHEC", "ATTR"})   # the caller's own arguments may be handed back
         ob(f"accessor/{q}:returns-no-alias-of-internal-state", not bad,
            f"{q} may return an object in region(s) {bad} (INT=array stored in current/history, INTC=internal container, "
-           f"CACHE=results cache, PARAM=caller argument)", idx[(m, q)].lineno)
+           f"CACHE=results cache, ATTR=object held in another instance attribute (memo/buffer), PARAM=caller argument)", idx[(m, q)].lineno)
 
     # the copy helper itself
     f = idx.get((SM, "StateManager._ensure_copy"))
